@@ -55,6 +55,8 @@ pub struct FontInfo {
     /// quadratic in the run length, so 8000 characters times the permitted growth (64x) would
     /// take minutes and be indistinguishable from a hang.
     pub long_text_ok: bool,
+    /// A `frac` + `liga` GSUB was installed: Shape ops mostly ask for FRAC.
+    pub frac_bias: bool,
 }
 
 impl FontInfo {
@@ -391,6 +393,7 @@ impl Generator {
                 .unwrap_or_default(),
             consumed: std::cell::RefCell::new(BTreeMap::new()),
             long_text_ok: true,
+            frac_bias: false,
         });
         self.info.insert(rel.to_string(), info.clone());
         Ok(info)
@@ -1600,7 +1603,28 @@ fn gen_install(rng: &mut Rng, info: &FontInfo, prop: &str) -> Option<(FontInfo, 
     let mut want_expansion = false;
     let want_morx = !want_vargpos && !want_rchain && rng.pct(p_morx);
     let want_kern = !want_vargpos && !want_rchain && !want_morx && rng.pct(p_kern);
-    if (want_morx || want_kern || want_vargpos || want_rchain) && info.char_gids.len() >= 2 && info.num_glyphs >= 3 {
+    let mut want_frac = false;
+    if prop == "C02" || prop == "C03" {
+        if rng.pct(if prop == "C02" { 4 } else { 2 }) && !want_vargpos && !want_rchain {
+            let gid = |c: char| -> Option<u16> {
+                info.char_gids
+                    .binary_search_by_key(&(c as u32), |(ch, _)| *ch)
+                    .ok()
+                    .map(|k| info.char_gids[k].1)
+                    .filter(|g| *g != 0 && *g < info.num_glyphs)
+            };
+            let wanted: Vec<char> = "fi/0123456789".chars().collect();
+            let glyphs: Vec<u16> = wanted.iter().filter_map(|c| gid(*c)).collect();
+            if glyphs.len() == wanted.len() {
+                surgeries.push(Surgery::InstallFracLiga {
+                    glyphs,
+                    variant: rng.below(1 << 16),
+                });
+                want_frac = true;
+            }
+        }
+    }
+    if !want_frac && (want_morx || want_kern || want_vargpos || want_rchain) && info.char_gids.len() >= 2 && info.num_glyphs >= 3 {
         // a run of neighbouring mapped characters with distinct non-zero glyph ids
         let want = 3 + rng.usize_below(22);
         let start = rng.usize_below(info.char_gids.len());
@@ -1798,6 +1822,14 @@ fn gen_install(rng: &mut Rng, info: &FontInfo, prop: &str) -> Option<(FontInfo, 
         if surgery::apply(&mut modified.disk, s).is_err() {
             return None;
         }
+    }
+    if want_frac {
+        modified.gsub_features = ["dnom", "frac", "liga", "numr"]
+            .iter()
+            .map(|t| (crate::trace::tag_from_str(t), vec![0u16]))
+            .collect();
+        modified.scripts = vec!["latn".to_string(), "DFLT".to_string()];
+        modified.frac_bias = true;
     }
     if let Some(f) = focus {
         modified.chars = f;
@@ -2203,7 +2235,13 @@ pub fn gen_op(rng: &mut Rng, info: &FontInfo, kind: &str) -> Op {
         }
         "Shape" => {
             let mut text = gen_text(rng, info);
-            let feat = gen_feat(rng, info);
+            let mut feat = gen_feat(rng, info);
+            if info.frac_bias && rng.pct(70) {
+                feat = Feat {
+                    mask: Some(DEFAULT_MASK | (1 << 16)),
+                    custom: None,
+                };
+            }
             // with the `frac` feature requested: mostly a fraction, after text that ligatures
             // can shorten and before little or nothing (the shaper splits the run around it)
             if feat.mask.map_or(false, |m| m & (1 << 16) != 0) && rng.pct(60) {
